@@ -60,6 +60,15 @@ def run(pid, suites, tier, seed):
         try:
             r = json.loads(p.stdout)
         except ValueError:
+            if p.returncode < 0 or 'stack overflow' in (p.stderr or '') or 'fatal runtime error' in (p.stderr or ''):
+                # the library took the whole process down (stack overflow, abort): worse than a panic, and catch_unwind cannot hold it
+                v = dict(unit='C06.abort', clause='no operation of the library aborts the process or overflows the stack',
+                         obligation='no operation of the library aborts the process or overflows the stack',
+                         input=dict(suite=s, note='the suite process died; the input is whatever it was evaluating'),
+                         observed='process ended with status %s: %s' % (p.returncode, (p.stderr or '')[-300:]), required='a value or an error', suite=s)
+                out['suites'].append(dict(suite=s, status='violated', violations=[v], evaluations=0, wall_s=time.time() - t0))
+                out['violations'].append(v)
+                continue
             out['suites'].append(dict(suite=s, status='error', reason=(p.stderr or p.stdout)[-400:]))
             out['status'] = 'error'; out['reason'] = 'suite %s gave no JSON: %s' % (s, (p.stderr or p.stdout)[-300:])
             continue
